@@ -9,7 +9,9 @@ Init == appended = <<>> /\ synced = 0 /\ pend = "" /\ wrote = FALSE /\ fsynced =
 Ev == Trace[l]
 Check ==
   CASE Ev.t = "ret" ->
-         IF Ev.err # "" THEN "wal-call-failed"
+         \* an fsync(2) of the log file was made to fail inside this call (EIO injected by strace): the synchronous append must report it
+         IF "fault" \in DOMAIN Ev /\ Ev.fault THEN (IF Ev.err = "" THEN "fsync-failure-absorbed" ELSE "ok")
+         ELSE IF Ev.err # "" THEN "wal-call-failed"
          \* each synchronous append has written and fsynced its record before it returns
          ELSE IF pend = "appendsync" /\ ~(wrote /\ fsynced) THEN "appendsync-returned-without-write-and-fsync" ELSE "ok"
     [] Ev.t = "cp" ->
